@@ -37,15 +37,24 @@ Proof. exact hang_not_wf. Qed.
 Print Assumptions C17_hang_needs_ill_ordered_site.
 
 (* No component's stop waits on a component that is stopped later, except
-   through a bounded timer: the explicit dependency relation of the code's
-   table (site, owner, later component whose quit would release it) consists
-   of exactly three entries — broadcast handler and rebroadcast worker inside
-   sendTransaction, filter-header handler inside a broadcast query, all
-   released by s.quit, closed last — and each of these sites has a timer. *)
+   through a bounded timer or through a request that a still-running
+   goroutine of that later component serves: the explicit dependency relation
+   of the code's table (site, owner, later component whose quit would release
+   it or whose goroutine serves it) consists of exactly these entries —
+   broadcast handler and rebroadcast worker inside sendTransaction, and the
+   filter-header handler inside a broadcast query (released by s.quit, closed
+   last, or by the query's timer); the same goroutines and the work
+   dispatcher asking the peer handler for the peer list (s.query, served until
+   s.quit is closed); the broadcast handler cancelling its block subscription
+   (served by the subscription handler); a query worker handing a filter to
+   the batch writer's queue (served until the batch writer is stopped) — and
+   each of these sites has a timer or is served. *)
 Theorem C17_no_wait_on_later :
-  deps_from [] stop_order code_sites = [(11, CBcast, CSvc); (12, CBcast, CSvc); (53, CBlock, CSvc)]
+  deps_from [] stop_order code_sites =
+    [(11, CBcast, CSvc); (12, CBcast, CSvc); (14, CBcast, CSvc); (15, CBcast, CSub);
+     (22, CWork, CSvc); (23, CWork, CBatch); (53, CBlock, CSvc); (57, CBlock, CSvc)]
   /\ forallb (fun s => negb (existsb (fun d => let '(i, _, _) := d in i =? s_id s)
-                                     (deps_from [] stop_order code_sites)) || has_timer s)
+                                     (deps_from [] stop_order code_sites)) || has_timer s || is_served s)
              code_sites = true.
 Proof. split; vm_compute; reflexivity. Qed.
 Print Assumptions C17_no_wait_on_later.
